@@ -184,3 +184,9 @@ package messagequeue
 //@   ensures (forall t int :: nFinal[t] == old(nFinal)[t]) || (exists t0 int :: nFinal == upd(old(nFinal), t0, old(nFinal)[t0] + 1))
 //@   callsite Publisher.Close: assert nFinal == upd(old(nFinal), metadata.topic, old(nFinal)[metadata.topic] + 1)
 //@   loop 1 invariant nFinal == old(nFinal) && mq.sender != nil && buildersOK(mq)
+//@ func openSender
+//@   lenient
+//@   safety off
+//@   modifies alloc
+//@   -- assumption about the network layer (not proved): a sender is returned whenever no error is
+//@   trusts result1 == nil ==> result0 != nil
